@@ -238,6 +238,10 @@ func sortOf(t types.Type) (string, bool) {
 			return bvSort(64), true
 		case types.String:
 			return "Str", true
+		case types.UnsafePointer:
+			return "Ref", true
+		case types.Float32, types.Float64, types.UntypedFloat, types.Complex64, types.Complex128:
+			return "F64", true // floating point is outside the subset: values can be stored and moved, not computed with
 		}
 	case *types.Pointer:
 		return "Ref", true
@@ -346,7 +350,9 @@ func zeroOf(sort string) Term {
 	case strings.HasPrefix(sort, "(_ BitVec"):
 		return bvT(big.NewInt(0), bvWidth(sort))
 	case sort == "Str":
-		return Term{S: "str.empty", Sort: "Str", C: nil}
+		return Term{S: "str!empty", Sort: "Str", C: nil}
+	case sort == "F64":
+		return Term{S: "f64.zero", Sort: "F64", C: nil}
 	}
 	panic("zeroOf " + sort)
 }
